@@ -180,6 +180,7 @@ def execute(sc):
     res = RunResult()
     log = EventLog(cap=40000)
     res.log = log
+    log.blind_sizes = True      # NaN cells are part of the workload: see EventLog
     log.emit("scenario", prop="C09", nprod=len(sc["producers"]), ncons=len(sc["consumers"]))
     fs = SimFS(log, res, files={}, dirs=[WORK])
     snaps = {}        # result name -> snapshot taken when it was produced
